@@ -279,6 +279,22 @@ impl Property for C13 {
                 }
             }
         }
+        // written WITHOUT separators: `<digits>e` directly followed by a sign and whatever comes next (the lexer looks two
+        // partial tokens ahead there), next to operands, operators and parentheses — all strings up to 4 pieces
+        let tight = ["1e+", "1e-", "2E+", "1", "x", "+", "(", ")", " ", "1.5"];
+        let tmax = if tier == Tier::Quick { 4 } else { 5 };
+        for len in 1..=tmax {
+            for mut k in 0..tight.len().pow(len as u32) {
+                let mut t = String::new();
+                for _ in 0..len {
+                    t.push_str(tight[k % tight.len()]);
+                    k /= tight.len();
+                }
+                if t.contains('e') || t.contains('E') {
+                    cases.push(ill_case(&t, "tight-mantissa-sign"));
+                }
+            }
+        }
         for s in ["\"\\\"(\"", "len(\"\\\")\")", "1 + 2 // that was easy :-)", "(1 /* ( */ + 2) * 3", "\"(\" + \")\"", "+ 1 f 2", "false && !", "true || -", "false &&", "true ||", "false && (1 +)", "x == 5 || (5 ==)", "false && 1 2", "true || f f", "1, 2)", "x = 1; x)", ",)", "1 +\u{a0}", "1\u{a0}2", "x\u{3000}x", "(1\u{b}2)"] {
             cases.push(ill_case(s, "named"));
         }
